@@ -56,3 +56,49 @@ func VerifC14DestParams() {
 	verifSettle()
 	verifCover("end")
 }
+
+// VerifC18DestUpdate: one runtime change of a destination (modDest / Table.UpdateDestination -> Destination.Update)
+// carrying any subset of the options addr, prefix, sub, regex is applied completely: afterwards the destination
+// has every option of the change (and keeps the others), whatever the combination.
+func VerifC18DestUpdate() {
+	verifEndpointUp(true)
+	m0, _ := matcher.New("", "", "", "", "", "")
+	period := time.Second
+	if !verifIsSymbolic() {
+		period = 20 * time.Millisecond
+	}
+	// configured at an address nobody listens on (natively: connection refused), so that a change of address shows
+	d, err0 := New("route", m0, "127.0.0.1:1", "/spool", false, false, period, period, 2, 4, 4, 12, 10, time.Hour, time.Millisecond, time.Millisecond)
+	if err0 != nil {
+		panic(err0)
+	}
+	d.Run()
+	verifSettle()
+	opts := map[string]string{}
+	want := d.GetMatcher()
+	wantPrefix, wantSub, wantRegex := want.Prefix, want.Sub, want.Regex
+	wantAddr := d.Addr
+	if verifBool("addr") {
+		opts["addr"] = verifEndpointAddr()
+		wantAddr = verifEndpointAddr()
+	}
+	if verifBool("prefix") {
+		opts["prefix"] = "pp."
+		wantPrefix = "pp."
+	}
+	if verifBool("sub") {
+		opts["sub"] = "ss"
+		wantSub = "ss"
+	}
+	if verifBool("regex") {
+		opts["regex"] = "^r"
+		wantRegex = "^r"
+	}
+	err := d.Update(opts)
+	verifSettle()
+	verifAssert(err == nil, "update-accepted")
+	got := d.GetMatcher()
+	verifAssert(got.Prefix == wantPrefix && got.Sub == wantSub && got.Regex == wantRegex, "every-filter-option-of-the-change-applied")
+	verifAssert(d.Addr == wantAddr, "address-option-of-the-change-applied")
+	verifCover("end")
+}
